@@ -3,7 +3,7 @@
 use crate::corpus::*;
 use crate::driver::{Cfg, MAC_SRV};
 use crate::engine::Report;
-use crate::props::{cfg_lists, cfg_plain, sweep_frames};
+use crate::props::sweep_frames;
 use crate::wire::*;
 
 fn v4(ip: Ip) -> [u8; 4] {
@@ -19,10 +19,10 @@ pub fn run(rep: &mut Report, thorough: bool) {
         "ARP requests whose hardware/protocol type or address lengths are not Ethernet/IPv4 are abstained on".into(),
         "ND-NS with malformed option TLVs are abstained on".into(),
     ];
-    let cfgs: Vec<Cfg> = vec![cfg_plain(), cfg_lists()];
-    for cfg in &cfgs {
-        let lists = !cfg.self_ips.is_empty();
-        let tag = if lists { "lists" } else { "plain" };
+    let variants = crate::props::cfg_variants();
+    let cfgs: Vec<Cfg> = variants.iter().map(|x| x.1.clone()).collect();
+    for (vi, cfg) in cfgs.iter().enumerate() {
+        let tag = variants[vi].0;
         // ARP: all 65536 operations x target handled / not handled
         let targets = [srv4(), srv4b(), Ip::V4([10, 0, 0, 2]), Ip::V4([255, 255, 255, 255])];
         sweep_frames(rep, cfg, &format!("arp-op-{}", tag), "ARP op 0..65535 x 4 targets", 65536 * 4, |i| {
